@@ -104,6 +104,9 @@ class OracleOb(StmtOb):
         e = o.stmt(self.st)
         if self.target_apart:
             target_differs_from_sources(self.st, names, self.quotes)
+            # for column pairs a base table captured by a CTE name would have to expose the referenced columns to be valid
+            # SQL: that coincidence is assumed away here (C01 keeps it: shadowing is a table-level matter)
+            validity_assumptions(self.st, self.val(names))
         if self.distinct_outputs:
             self.assume_distinct_outputs(o)
         exp = Expect(sources=e["sources"], targets=e["targets"], intermediates=[], pairs=e["pairs"])
